@@ -52,6 +52,22 @@ def evidence_table():
                                                        '; '.join(c.get('exhaustive_subspaces', []))[:260]))
     return '\n'.join(rows)
 
+def benign_table():
+    rows = ['| refactoring | what it changes (first lines of its notes) | repo tests | checks run against it | result |', '|---|---|---|---|---|']
+    for d in sorted(glob.glob(os.path.join(HERE, 'benign', '*', 'meta.json'))):
+        m = json.load(open(d))
+        notes = ''
+        np_ = os.path.join(os.path.dirname(d), 'notes.md')
+        if os.path.exists(np_):
+            ls = [l.strip(' -*#0123456789.') for l in open(np_) if l.strip() and not l.startswith('#')]
+            notes = '; '.join(x[:90] for x in ls[:3])
+        ran = ' '.join(r['cmd'].split()[-2] for r in m.get('ran', []))
+        bad = [r['cmd'].split()[-2] + ':' + ','.join(k.replace('key=', '') for k in r['violation_keys'][:2]) for r in m.get('ran', []) if r['rc'] != 0]
+        rows.append('| %s | %s | %s | %s | %s |' % (m['name'], notes.replace('|', '/'), m.get('repo_tests_with_patch', '?'), ran,
+                                                  'all quiet' if m.get('quiet') else ('**alarm**: ' + '; '.join(bad)) + (' — ' + m['history'] if m.get('history') else '')))
+    return '\n'.join(rows)
+
+text = text.replace('{{BENIGN_TABLE}}', benign_table())
 text = text.replace('{{SEEDED_TABLE}}', seeded_table()).replace('{{MUTANT_SUMMARY}}', mutant_summary()).replace('{{EVIDENCE_TABLE}}', evidence_table())
 p = os.path.join(HERE, 'DESIGN.md')
 s = open(p).read()
